@@ -31,7 +31,7 @@ func GenSeq(t *rapid.T) *SeqCase {
 	nh := rapid.IntRange(1, 6).Draw(t, "nh")
 	if rapid.IntRange(0, 5).Draw(t, "crowd") == 0 {
 		// a long handler list: small-size thresholds are crossed
-		nh = rapid.SampledFrom([]int{9, 17, 33}).Draw(t, "crowdSize")
+		nh = rapid.SampledFrom([]int{9, 17, 33, 65, 70, 130}).Draw(t, "crowdSize")
 	}
 	for i := 0; i < nh; i++ {
 		c.Handlers = append(c.Handlers, genH(t, 3))
